@@ -155,7 +155,7 @@ def start_run(binary, test, checks, seed, shard, workdir, extra_env, timeout_s, 
         "VERIF_REPLAYS": REPLAYS,
         "VERIF_KNOWN": KNOWN,
     })
-    if first:
+    if first and not os.environ.get("VERIF_NO_REGRESS"):
         env["VERIF_REGRESS"] = REGRESS  # one shard replays the saved regression cases
     env.update(extra_env or {})
     cmd = [binary, "-test.run", "^%s$" % test, "-test.timeout", "%ds" % timeout_s,
